@@ -73,10 +73,17 @@ def from_node(node: Union[NodeTemplate, EdgeTemplate], return_dict: dict, base: 
 
     new_dict = {'base': base, 'operators': []}
 
-    # collect operator definitions
+    # collect operator definitions. The operator itself is dumped with its own defaults; values that this node sets for
+    # it are dumped as node-level variations (baking them into a renamed copy of the operator would change the variable
+    # paths `node/op/var` that edges, inputs and outputs refer to).
+    variations = {}
     for op, updates in node.operators.items():
-        opkey = from_operator(op=op, updates=updates, return_dict=return_dict)
+        opkey = from_operator(op=op, updates={}, return_dict=return_dict)
         new_dict['operators'].append(opkey)
+        variations[opkey] = {key: (val.item() if hasattr(val, 'item') and not getattr(val, 'shape', ()) else val)
+                             for key, val in (updates or {}).items()}
+    if any(variations.values()):
+        new_dict['operators'] = variations
 
     # add node information to the return dictionary
     return add_to_dict(node, new_dict, return_dict)
